@@ -35,6 +35,8 @@ CODES = {1: "find_blocked_reactions returns the right set but not in request ord
          3: "find_blocked_reactions misses a requested reaction that carries zero flux in every distribution",
          4: "fastcc keeps a reaction that is blocked (no feasible distribution with non-zero flux through it)",
          5: "fastcc drops a reaction that is not blocked",
+         15: "fastcc drops a reaction that is not blocked, in a model without any reversible reaction (where the loop "
+             "over the remaining reactions provably finds every unblocked reaction)",
          6: "fastcc's result is not the input minus the dropped reactions with kept reactions unchanged "
             "(ids / stoichiometry / bounds / gene rule), or the input model was modified",
          7: "the model returned by fastcc contains a blocked reaction",
@@ -99,12 +101,28 @@ def gen_cases(rng, tier):
                 for r in net["rxns"]:
                     r["obj"] = "0"
                 rng.choice(cand)["obj"] = rng.choice(["1", "-1", "2"])
+        if k % 4 == 1:
+            # no reversible reaction, mostly small capacities (comparable to fastcc's flux_threshold = 1): branches compete
+            # for the flux of a tight source, so the first LP cannot activate every unblocked reaction at once
+            for r in net["rxns"]:
+                lb, ub = gennet.num(r["lb"]), gennet.num(r["ub"])
+                cap = rng.choice(["1", "1", "2", "5", "1000"])
+                if lb < 0 < ub:
+                    if rng.random() < 0.75:
+                        r["lb"], r["ub"] = "0", cap
+                    else:
+                        r["lb"], r["ub"] = "-" + cap, "0"
+                elif rng.random() < 0.6:
+                    if ub > 0:
+                        r["ub"] = cap
+                    elif lb < 0:
+                        r["lb"] = "-" + cap
         ids = [r["id"] for r in net["rxns"]]
         if rng.random() < 0.5:
             sub = None
         else:
             sub = rng.sample(ids, rng.randrange(1, len(ids) + 1))
-        open_ex = rng.random() < 0.3
+        open_ex = rng.random() < 0.3 and k % 4 != 1
         cases.append({"net": net, "solver": "glpk_exact" if k % 6 == 5 else "glpk", "rxn_list": sub,
                       "objects": rng.random() < 0.5, "open": open_ex, "processes": 2 if k % 10 == 7 else 1,
                       "fastcc": not open_ex})
@@ -234,7 +252,9 @@ def case_term(case):
                   "stats": {"solver": case["solver"], "open_exchanges": case["open"], "reaction_list": "all" if sub is None
                             else ("objects" if case["objects"] else "ids"), "processes": case["processes"],
                             "n_blocked": nb, "n_rxns": len(vals), "dir": net["dir"],
-                            "objective_zeroed_in_source": zero_obj_in_source(), "fastcc": fast != "None"}}
+                            "objective_zeroed_in_source": zero_obj_in_source(), "fastcc": fast != "None",
+                            "no_reversible_reaction": all(not (gennet.num(r["lb"]) < 0 < gennet.num(r["ub"]))
+                                                          for r in net["rxns"])}}
 
 
 def signature(case, codes):
